@@ -204,5 +204,8 @@ example : exTab.fieldNames.Nodup := by decide
 and does not round-trip. -/
 example : namesRoundTrip { syms := [⟨[101, 110, 100], false, false, false, 0⟩, ⟨[69], true, true, false, 1⟩], fieldNames := [] } = false := by
   decide
+/-- with the exact comparison of fixes/C16-error-prefix.diff the same table round-trips -/
+example : namesRoundTrip { exactError := true, syms := [⟨[101, 110, 100], false, false, false, 0⟩, ⟨[69], true, true, false, 1⟩], fieldNames := [] } = true := by
+  decide
 
 end TsVerif.C16
